@@ -32,7 +32,7 @@ RULES = {
     "R16.3": "failed/ended connection forgotten on the send side: round-robin, REQ send/recv, PUB reader, PUB/XPUB send",
     "R16.4": "every peer_disconnected impl removes the table entry of its argument",
     "R16.5": "leftover ready event of a removed peer is skipped (C06 R06.1)",
-    "R16.F": "foundation clauses re-evaluated as necessary conditions: " + ", ".join(['identity']),
+    "R16.F": "foundation clauses re-evaluated as necessary conditions: " + ", ".join(['identity', 'wakeup']),
 }
 
 
@@ -88,7 +88,58 @@ def check_failed_announce(ctx, f, rep):
     rep.floor("R16.3", "SUB registering paths examined for a failed announcement", n, 1)
 
 
-DEPENDS = ['identity']     # foundation groups re-evaluated as necessary conditions (rules/found.py)
+DEPENDS = ['identity', 'wakeup']     # foundation groups re-evaluated as necessary conditions (rules/found.py)
+
+
+def check_pub_reader(f, rep):
+    """R16.3 (PUB reader task): forgets its peer when, and only when, the subscriber's stream ended or failed"""
+    # PUB reader task
+    for ty, outer in trait_impls(f, "MultiPeerBackend", "peer_connected").items():
+        if not ty.endswith("PubSocketBackend") or "XPub" in ty:
+            continue
+        co = coroutine_of(f, outer)
+        readers = [k for k in f.children(co) if k.j.get("coroutine_kind")]
+        rep.floor("R16.3", "PUB reader task", len(readers), 1)
+        for rd in readers:
+            seen = {"none": 0, "err": 0}
+            for p in pathq.paths(f, rd, max_visits=2):
+                if p.end != "return":
+                    continue
+                dis = [ev for i, ev in pathq.calls(p, "peer_disconnected")]
+                # which arm ended the task: last decisions on the select result payload
+                kind = None
+                for (e, c, _, _) in p.conds:
+                    if e[0] == "discr" and c[0] == "eq" and e[1][0] == "field" and e[1][1][0] == "downcast" and isinstance(e[1][1][2], str) and e[1][1][2].startswith("_") and e[1][1][2][1:].isdigit():
+                        kind = ("none" if c[1] == 0 else "some", e[1][1][2])
+                    if kind and kind[0] == "some" and e[0] == "discr" and c[0] == "eq" and e[1][0] == "field" and e[1][1][0] == "downcast" and e[1][1][2] == "Some":
+                        kind = ("err" if c[1] == 1 else "ok", kind[1])
+                if kind and kind[0] in ("none", "err") and dis is not None:
+                    # only the receive arm carries an Option<Result<..>>; the stop arm carries a oneshot result
+                    if any("message_received" in ev.name for ev in p.events if ev.kind == "call"):
+                        pass
+                    seen[kind[0]] += 1 if dis else 0
+            # ... and ONLY then: a reader stopped through its stop channel belongs to an entry that was replaced (same identity, new
+            # connection) or removed already - disconnecting by identity there would remove the *new* connection's entry
+            for p in pathq.paths(f, rd, max_visits=2):
+                if p.end != "return":
+                    continue
+                dis = [ev for i, ev in pathq.calls(p, "peer_disconnected")]
+                recv_end = False
+                for (e, c, _, _) in p.conds:
+                    if e[0] == "discr" and c[0] == "eq" and e[1][0] == "field" and e[1][1][0] == "downcast" and isinstance(e[1][1][2], str) and \
+                            e[1][1][2].startswith("_") and e[1][1][2][1:].isdigit() and "Option<" in str(e[1][3] if len(e[1]) > 3 else "") and "Message" in str(e[1][3] if len(e[1]) > 3 else ""):
+                        if c[1] == 0:
+                            recv_end = True
+                    if e[0] == "discr" and c == ("eq", 1) and e[1][0] == "field" and e[1][1][0] == "downcast" and e[1][1][2] == "Some" and "Result<" in str(e[1][3] if len(e[1]) > 3 else ""):
+                        recv_end = True
+                if dis and not recv_end:
+                    rep.bad("R16.3", "R16.3|PUB-reader|disconnects-only-on-stream-end",
+                            "the PUB reader task calls peer_disconnected on a path where the subscriber's stream neither ended nor failed (stopped through its stop channel): "
+                            "it would remove the entry of the connection that replaced it", rd.loc(dis[0].bb))
+            if not any("disconnects-only-on-stream-end" in o.key and not o.ok for o in rep.obls):
+                rep.ok("R16.3", "R16.3|PUB-reader|disconnects-only-on-stream-end", "the PUB reader task disconnects its peer only when the stream ended or failed, not when it is stopped", rd.loc())
+            rep.check(seen["none"] > 0 and seen["err"] > 0, "R16.3", "R16.3|PUB-reader|forgets-peer",
+                      "the PUB reader task calls peer_disconnected when the subscriber's stream ends (%d paths) and when it fails (%d paths)" % (seen["none"], seen["err"]), rd.loc())
 
 
 def run(ctx, f, rep):
@@ -210,33 +261,7 @@ def run(ctx, f, rep):
                 rep.check(bool(rem), "R16.3", "R16.3|REQ-recv|forgets-peer|%s" % kind,
                           "REQ recv forgets the peer when its connection %s (removals on the path: %s)" % ("ended" if kind == "none" else "failed", [short(e.name) for e in rem]), co.loc())
         rep.floor("R16.3", "REQ recv: end-of-stream and error exits", len([k for k, v in seen.items() if v]), 2)
-    # PUB reader task
-    for ty, outer in trait_impls(f, "MultiPeerBackend", "peer_connected").items():
-        if not ty.endswith("PubSocketBackend") or "XPub" in ty:
-            continue
-        co = coroutine_of(f, outer)
-        readers = [k for k in f.children(co) if k.j.get("coroutine_kind")]
-        rep.floor("R16.3", "PUB reader task", len(readers), 1)
-        for rd in readers:
-            seen = {"none": 0, "err": 0}
-            for p in pathq.paths(f, rd, max_visits=2):
-                if p.end != "return":
-                    continue
-                dis = [ev for i, ev in pathq.calls(p, "peer_disconnected")]
-                # which arm ended the task: last decisions on the select result payload
-                kind = None
-                for (e, c, _, _) in p.conds:
-                    if e[0] == "discr" and c[0] == "eq" and e[1][0] == "field" and e[1][1][0] == "downcast" and isinstance(e[1][1][2], str) and e[1][1][2].startswith("_") and e[1][1][2][1:].isdigit():
-                        kind = ("none" if c[1] == 0 else "some", e[1][1][2])
-                    if kind and kind[0] == "some" and e[0] == "discr" and c[0] == "eq" and e[1][0] == "field" and e[1][1][0] == "downcast" and e[1][1][2] == "Some":
-                        kind = ("err" if c[1] == 1 else "ok", kind[1])
-                if kind and kind[0] in ("none", "err") and dis is not None:
-                    # only the receive arm carries an Option<Result<..>>; the stop arm carries a oneshot result
-                    if any("message_received" in ev.name for ev in p.events if ev.kind == "call"):
-                        pass
-                    seen[kind[0]] += 1 if dis else 0
-            rep.check(seen["none"] > 0 and seen["err"] > 0, "R16.3", "R16.3|PUB-reader|forgets-peer",
-                      "the PUB reader task calls peer_disconnected when the subscriber's stream ends (%d paths) and when it fails (%d paths)" % (seen["none"], seen["err"]), rd.loc())
+    check_pub_reader(f, rep)
     # PUB/XPUB send: every dead peer is passed to peer_disconnected
     for suffix, label in (("r#pub::PubSocket", "PUB send"), ("xpub::XPubSocket", "XPUB send")):
         co = socket_coroutine(f, "SocketSend", "send", suffix)
